@@ -525,6 +525,14 @@ def r6_no_alias(repo: Repo, rep):
                 for t in (c.targets if isinstance(c, ast.Assign) else [c.target]):
                     if isinstance(t, ast.Subscript) and dump(t.value) == "self.defaults":
                         inplace.append(fi.name)
+    # the wrapper's own mapping is never one it was handed (the constructor's shared default `{}` or the user's dict): set_default / remove_default write in place
+    for fi in uf.methods.values():
+        for n in ast.walk(fi.node):
+            if isinstance(n, ast.Assign) and any(dump(t) == "self.defaults" for t in n.targets) and isinstance(n.value, ast.Name) and n.value.id in fi.params:
+                rep.saw(fi)
+                rep.check(R, not inplace, fi.site(n), fi.fq, "self.defaults is a mapping of its own (a copy of what was handed in)",
+                          f"self.defaults = {n.value.id} (the caller's object; for the default argument the one dict shared by every wrapper); written in place by {sorted(set(inplace))}",
+                          f"self.defaults aliases the parameter {n.value.id}")
     init = uf.methods.get("__init__")
     if init is None:
         raise AnalysisError("UserFunction.__init__ vanished")
